@@ -103,7 +103,13 @@ func Verif_C09_Client() {
 	}
 	t := zv.Int64("remaining-ns")
 	zv.SetUntil(time.Duration(t))
-	ctx, cancel := context.WithTimeout(context.Background(), time.Duration(t))
+	parent := context.Background()
+	if zv.Bool("outgoing-metadata-carries-a-stale-grpc-timeout") {
+		// e.g. a handler forwarding its incoming metadata on an onward call: the
+		// time-out sent is the one of this call's own deadline, and only that
+		parent = metadata.NewOutgoingContext(parent, metadata.Pairs("grpc-timeout", "1H"))
+	}
+	ctx, cancel := context.WithTimeout(parent, time.Duration(t))
 	defer cancel()
 	h := headersFromContext(ctx)
 	vals := h["Grpc-Timeout"]
